@@ -129,6 +129,14 @@ func runC05(c *Ctx) {
 		if v == ssa.Value(kernelPDT) || isLoadOfGlobal(v, kernelPDT) {
 			return true
 		}
+		// through a local pointer that is set once to &kernelPDT (`pdt := &kernelPDT`):
+		// the pointer itself, or what it points to (read where it is used)
+		if through(v) == ssa.Value(kernelPDT) {
+			return true
+		}
+		if ld, ok := strip(v).(*ssa.UnOp); ok && ld.Op == token.MUL && through(ld.X) == ssa.Value(kernelPDT) {
+			return true
+		}
 		w := through(v)
 		ld, ok := w.(*ssa.UnOp)
 		if !ok || !isLoadOfGlobal(w, kernelPDT) || ld.Parent() != setup {
@@ -143,7 +151,7 @@ func runC05(c *Ctx) {
 		}
 		after, _ := gInit.MustPassBefore(n, func(k int) bool {
 			cc := callCommon(gInit.Ins[k])
-			return cc != nil && m.callsTo(gInit.Ins[k], pdtInit) && cc.Args[0] == ssa.Value(kernelPDT)
+			return cc != nil && m.callsTo(gInit.Ins[k], pdtInit) && (cc.Args[0] == ssa.Value(kernelPDT) || through(cc.Args[0]) == ssa.Value(kernelPDT))
 		})
 		return after
 	}
